@@ -393,10 +393,20 @@ fn rewrite_trees() -> Vec<Entry> {
     let mut t3 = Entry::dir(T0);
     t3.insert("d/only", Entry::file(lcg(7, 10), T0 + 8));
     v.push(t3);
+    // twin directories: p and q (and p/sub, q/sub) are stored as one tree blob each, reachable at
+    // two paths - a path-anchored glob must take effect at the named place only
+    let mut t4 = Entry::dir(T0);
+    for d in ["p", "q"] {
+        t4.insert(&format!("{d}/sub/secret"), Entry::file(lcg(8, 40), T0 + 9));
+        t4.insert(&format!("{d}/sub/plain"), Entry::file(lcg(9, 40), T0 + 9));
+        t4.insert(&format!("{d}/top"), Entry::file(lcg(10, 40), T0 + 9));
+    }
+    t4.insert("a", Entry::file(lcg(1, 100), T0 + 1));
+    v.push(t4);
     v
 }
 
-const GLOBS: [&str; 4] = ["!/r/a", "!/r/d/*", "!*.x", "!/r/d"];
+const GLOBS: [&str; 6] = ["!/r/a", "!/r/d/*", "!*.x", "!/r/d", "!/r/p/sub/secret", "!/r/q/sub/secret"];
 
 /// reference: is the path (relative to r, with its kind) excluded by the glob?
 fn excluded(glob: &str, rel: &str) -> bool {
@@ -406,6 +416,8 @@ fn excluded(glob: &str, rel: &str) -> bool {
         "!/r/d/*" => comps[0] == "d" && comps.len() >= 2,
         "!*.x" => comps.iter().any(|c| c.ends_with(".x")),
         "!/r/d" => comps[0] == "d",
+        "!/r/p/sub/secret" => rel == "p/sub/secret",
+        "!/r/q/sub/secret" => rel == "q/sub/secret",
         _ => false,
     }
 }
@@ -642,7 +654,7 @@ fn part_repair(raw: &RawKey, rep: &mut Report, args: &Args) {
 pub fn run(args: &Args, rep: &mut Report) {
     let raw = RawKey::from_master(&master_key());
     std::panic::set_hook(Box::new(|_| {}));
-    rep.set_meta("bounds", json!("copy: 2 source repositories (one with tree/data id collisions) x 4 destinations (empty, holding some blobs, other key + repo v1 + one-blob packs, other key + compression 19 + default chunker) x every non-empty subset of 3 snapshots; merge: all pairs (and triples over a subset) of trees with entries a,b of kind {absent, file v1, file v2, symlink, dir with sub-entries} x 3 orderings; rewrite: 3 trees x every glob set of size <= 2 over 4 exclude globs x forget; repair: undamaged + every single pack removed + every single blob entry dropped from the index, x delete"));
+    rep.set_meta("bounds", json!("copy: 2 source repositories (one with tree/data id collisions) x 4 destinations (empty, holding some blobs, other key + repo v1 + one-blob packs, other key + compression 19 + default chunker) x every non-empty subset of 3 snapshots; merge: all pairs (and triples over a subset) of trees with entries a,b of kind {absent, file v1, file v2, symlink, dir with sub-entries} x 3 orderings; rewrite: 4 trees (one with twin directories sharing their tree blobs) x every glob set of size <= 2 over 6 exclude globs (two anchored at one twin) x forget; repair: undamaged + every single pack removed + every single blob entry dropped from the index, x delete"));
     if args.replay.is_some() {
         rep.note("replay re-runs the complete check (all parts are small)");
     }
